@@ -168,12 +168,13 @@ Proof. induction l as [|x t IH]; simpl; auto. destruct (p (f x)); simpl; rewrite
 
 Lemma count_cccd_chars cs : N.of_nat (length (filter has_cccd cs)) = sumN char_nccc cs.
 Proof.
-  induction cs as [|ch t IH]; simpl; auto. unfold char_nccc at 1. destruct (has_cccd ch); simpl; unfold b2n; lia.
+  induction cs as [|ch t IH]; cbn [filter length sumN]; auto. unfold char_nccc at 1, b2n.
+  destruct (has_cccd ch); cbn [length]; lia.
 Qed.
 
 Lemma count_cccd_svcs ss : N.of_nat (length (filter has_cccd (flat_map s_chars ss))) = sumN svc_nccc ss.
 Proof.
-  induction ss as [|s t IH]; simpl; auto. rewrite filter_app, app_length, Nat2N.inj_add, IH.
+  induction ss as [|s t IH]; cbn [flat_map filter length sumN]; auto. rewrite filter_app, app_length, Nat2N.inj_add, IH.
   unfold svc_nccc at 1. rewrite count_cccd_chars. reflexivity.
 Qed.
 
